@@ -303,7 +303,7 @@ func TestVerifC17amScenarios(t *testing.T) {
 					sc.rep("am-record-differs", fmt.Sprintf("signed peer record with %d of %d addresses", len(pr.Addrs), shape.n+1))
 				}
 				if len(raw) > maxPeerRecordSize {
-					sc.rep("am-signed-record-over-identify-limit", fmt.Sprintf("%d advertised addresses of ~%d bytes: the stored signed peer record has %d bytes (maxPeerRecordSize %d, identify's read limit) with %d addresses",
+					sc.rep("L2:am-signed-record-over-identify-limit", fmt.Sprintf("%d advertised addresses of ~%d bytes: the stored signed peer record has %d bytes (maxPeerRecordSize %d, identify's read limit) with %d addresses",
 						shape.n+1, len(long[0].Bytes()), len(raw), maxPeerRecordSize, len(pr.Addrs)))
 				}
 				adv := map[string]bool{}
